@@ -17,11 +17,22 @@ def run(c):
     if c.thorough:
         c.leanchecker(["Rink.Props.C15"])
     digests = set()
+    import time, re
+    t0 = time.time()
     def judge(text, impl, aux):
         if aux and aux.get("k") == "digest":
             digests.add(impl)
             if len(digests) > 1:
-                return "the registry / clock / settings digest changed during a session: %s" % sorted(digests)
+                return "the digest of the whole Context (database, settings, anything else it holds; `ans` and the clock taken out) changed during a session: %s" % sorted(digests)
+        # the clock is set from the system clock at every query, wherever `now` stands in the expression
+        if aux and "now - #2000-01-01 00:00:00 +00:00#" in text and aux.get("_side", "").startswith("text="):
+            shown = bytes.fromhex(aux["_side"][5:]).decode("utf-8", "replace")
+            m = re.search(r"(-?[0-9]+(?:\.[0-9]+)?)(?:e([0-9]+))?", shown)
+            if m:
+                v = float(m.group(1)) * (10 ** int(m.group(2)) if m.group(2) else 1)
+                want = time.time() - 946684800
+                if abs(v - want) > 3600 + (time.time() - t0):
+                    return "seconds since 2000-01-01 by the query's `now`: %s, by the system clock: %.0f (the reply is %r)" % (m.group(0), want, shown[:80])
         return None
     st = vlib.eval_stream(c, "gen-c15", independent=False, judge=judge, group_start="reset")
     if st is None:
